@@ -10,6 +10,7 @@ import (
 	"path/filepath"
 	"sort"
 	"strings"
+	"sync"
 	"testing"
 	"time"
 
@@ -148,6 +149,76 @@ func TestVerifC09Vec(t *testing.T) {
 		}
 		rt.Out(rec)
 	}
+
+	// a clock that moves between two readings: midnight UTC passes while the span is computed.
+	// Either day may count as "the current day", but begin and end must belong to one and the same day.
+	for i := 0; i < in.Random/20+50; i++ {
+		day := int64(rng.Intn(24836)) + 1
+		w := rng.Intn(7)
+		setWeekends(t, []byte{byte('0' + w), '\n'}, false)
+		t1 := at(day, 0).Add(-time.Duration(1+rng.Intn(3)) * time.Millisecond)
+		step := time.Duration(2+rng.Intn(5)) * time.Millisecond
+		calls := 0
+		counter.CounterTime = func() time.Time {
+			calls++
+			return t1.Add(time.Duration(calls-1) * step)
+		}
+		b, e, err := counter.VCounterSpan()
+		last := t1.Add(time.Duration(calls-1) * step)
+		rec := rt.M{"kind": "obs", "now": t1.Unix(), "now2": last.Unix(), "byte": int('0' + w), "ok": err == nil, "begin": int64(-1), "end": int64(-1), "missing": false, "ticking": true}
+		if err == nil {
+			if b.Unix()%86400 != 0 || e.Unix()%86400 != 0 {
+				rec["begin"], rec["end"] = int64(-2), int64(-2)
+			} else {
+				rec["begin"], rec["end"] = dayOf(b), dayOf(e)
+			}
+		}
+		rt.Out(rec)
+	}
+	counter.CounterTime = func() time.Time { return now }
+}
+
+// TestVerifC09Timer: the rotation timer.  A rotating file (file.rotate) whose timer fires a
+// moment BEFORE the recorded end (the wall clock drifted) must still start the next span's
+// file once the end has been reached.  Real timers with the library's one-minute minimum
+// delay: slow, thorough tier only.
+func TestVerifC09Timer(t *testing.T) {
+	defer rt.Flush()
+	var in struct {
+		Enabled bool `json:"enabled"`
+	}
+	if err := rt.In(&in); err != nil || !in.Enabled {
+		t.Skip("timer scenario disabled")
+	}
+	dir := t.TempDir()
+	telemetry.Default = telemetry.NewDir(dir)
+	setWeekends(t, []byte("4\n"), false) // Thursday
+	end := time.Date(2024, 2, 29, 0, 0, 0, 0, time.UTC) // a Thursday
+	var mu sync.Mutex
+	now := end.Add(-12 * time.Hour) // the same UTC day as end-1ms: the early timer finds nothing to do
+	counter.CounterTime = func() time.Time { mu.Lock(); defer mu.Unlock(); return now }
+	set := func(x time.Time) { mu.Lock(); now = x; mu.Unlock() }
+	var f counter.VFile
+	c := f.New("c09")
+	f.Rotate() // opens the 2024-02-28 file (ends 02-29) and arms the timer (one minute: the real clock is far past)
+	c.Inc()
+	first := filepath.Base(f.CurrentName())
+	set(end.Add(-time.Millisecond)) // when the timer fires the mocked clock is just short of the end
+	time.Sleep(65 * time.Second)
+	stillOld := filepath.Base(f.CurrentName()) == first
+	set(end.Add(time.Second)) // the end has been reached; the re-armed timer must rotate
+	deadline := time.Now().Add(120 * time.Second)
+	rotated := false
+	for time.Now().Before(deadline) {
+		if n := filepath.Base(f.CurrentName()); n != first && strings.Contains(n, "-2024-02-29.v1.count") {
+			rotated = true
+			break
+		}
+		time.Sleep(500 * time.Millisecond)
+	}
+	c.Inc()
+	rt.Out(rt.M{"kind": "timer", "first": first, "still_old_before_end": stillOld, "rotated_after_end": rotated, "current": filepath.Base(f.CurrentName())})
+	f.Close()
 }
 
 type step struct {
